@@ -58,7 +58,7 @@ func main() {
 		}
 		return
 	}
-	n := r.Pick(300, 6000)
+	n := r.Pick(300, 30000)
 	nChains := r.Pick(12, 36)
 
 	// Chain pool: pure function of the seed.
